@@ -11,6 +11,7 @@ import (
 	"github.com/valinurovam/garagemq/interfaces"
 	"github.com/valinurovam/garagemq/qos"
 	"github.com/valinurovam/garagemq/queue"
+	"github.com/valinurovam/garagemq/verifhook"
 )
 
 const (
@@ -68,7 +69,10 @@ func (consumer *Consumer) Start() {
 // if not set noAck consumer pop message with qos rules and add message to unacked message queue
 func (consumer *Consumer) startConsume() {
 	for range consumer.consume {
+		verifhook.Enter("consumer.turn")
 		consumer.retrieveAndSendMessage()
+		verifhook.Exit("consumer.turn")
+		verifhook.Taken("consumer.consume")
 	}
 }
 
@@ -89,6 +93,7 @@ func (consumer *Consumer) retrieveAndSendMessage() {
 	if message == nil {
 		return
 	}
+	verifhook.At("consumer.afterPop")
 
 	if consumer.noAck {
 		consumer.queue.AckMsg(message)
@@ -111,6 +116,7 @@ func (consumer *Consumer) retrieveAndSendMessage() {
 	consumer.queue.GetMetrics().Ready.Counter.Dec(1)
 	consumer.queue.GetMetrics().ServerReady.Counter.Dec(1)
 
+	verifhook.At("consumer.beforeSend")
 	consumer.channel.SendContent(&amqp.BasicDeliver{
 		ConsumerTag: consumer.ConsumerTag,
 		DeliveryTag: dTag,
@@ -122,6 +128,7 @@ func (consumer *Consumer) retrieveAndSendMessage() {
 	consumer.queue.GetMetrics().Deliver.Counter.Inc(1)
 	consumer.queue.GetMetrics().ServerDeliver.Counter.Inc(1)
 
+	verifhook.At("consumer.beforeRearm")
 	consumer.consumeMsg()
 
 	return
@@ -156,6 +163,7 @@ func (consumer *Consumer) consumeMsg() bool {
 
 	select {
 	case consumer.consume <- struct{}{}:
+		verifhook.Sent("consumer.consume")
 		return true
 	default:
 		return false
